@@ -1,10 +1,23 @@
 /* seq_wb.c — correspondence harness for Array, List and Tuple (C04), white-box for Array.
- * Textually includes the working tree's src/Array.c (so `struct Array` and nslots are visible)
- * and is linked against every library object except Array.o.
+ * Textually includes the working tree's src/Array.c and src/List.c (so `struct Array`, nslots,
+ * `struct List` and its links are visible) and is linked against every object except those two.
  * Input / transcript format: see ocaml/Seq_driver.ml.  Elements are Int objects; a Tuple gets a
  * fresh heap Int per element (distinct pointers: finding F3 is probed separately, kind F). */
 #include "Array.c"
+#include "List.c"
 #include "hcommon.h"
+
+/* Case header  <K><flags>|  with flags: '*' = explicit dump mode (a step is dumped only when its
+ * operation token ends in '!' (full dump, ascending gets), '^' (gets at descending indices),
+ * '~' (iteration and mem only); a final full dump " | end;..." closes the case) — so that state
+ * depending on the ACCESS PATTERN (a cached cursor, say) is not reset by the observation itself;
+ * 'e<size>' = elements are plain structs of <size> bytes (own Cello type, no instances: assign =
+ * memcpy, cmp = memcmp, swap = memswap) whose every byte is a function of the value 0..250. */
+#define DEFELEM(N) struct E##N { uint8_t b[N]; }; static var E##N = Cello(E##N);
+DEFELEM(1) DEFELEM(2) DEFELEM(4) DEFELEM(6) DEFELEM(12) DEFELEM(20)
+static var ETYPE = NULL;     /* NULL: elements are Int */
+static size_t ESIZE = 0;
+static int EXPLICIT = 0;
 
 #define NPROBE 4
 static const int64_t PROBES[NPROBE] = {0, 1, 2, 7};
@@ -15,12 +28,26 @@ static char KIND;          /* A L T S F */
 static int64_t num(const char* s) { return (int64_t)strtoll(s, NULL, 10); }
 
 /* element object handed to the container: Array/List copy it, Tuple keeps the pointer */
-static var elem(int64_t v) { return new_raw(Int, $I(v)); }
+static var elem(int64_t v) {
+  if (ETYPE is NULL) return new_raw(Int, $I(v));
+  uint8_t* p = alloc_raw(ETYPE);
+  for (size_t k = 0; k < ESIZE; k++) p[k] = (uint8_t)(v * (int64_t)(2 * k + 1));
+  return p;
+}
+/* value of an element; a struct element whose bytes do not all belong to one value is torn and
+ * reads as a negative number no model value can have */
+static int64_t val(var x) {
+  if (ETYPE is NULL) return c_int(x);
+  uint8_t* p = x; int64_t v = p[0];
+  for (size_t k = 1; k < ESIZE; k++)
+    if (p[k] != (uint8_t)(v * (int64_t)(2 * k + 1))) return -1000000 - (int64_t)k * 1000 - p[k];
+  return v;
+}
 
 /* "v,v,v" -> fresh container of kind k holding those values */
 static var make(char k, char* list) {
   var args = new_raw(Tuple);
-  if (k isnt 'T') push(args, Int);
+  if (k isnt 'T') push(args, ETYPE ? ETYPE : Int);
   char* q = list; char* tok;
   while ((tok = next_tok(&q, ',')) != NULL) { if (*tok) push(args, elem(num(tok))); }
   if (k is 'A') return new_raw_with(Array, args);
@@ -28,7 +55,33 @@ static var make(char k, char* list) {
   return new_raw_with(Tuple, args);
 }
 
-static void pval(var x) { P("%" PRId64, (int64_t)c_int(x)); }
+/* white-box view of a List: the links agree with nitems, and a cached cursor (a pointer field with
+ * a companion index field, if the struct has one: -DLIST_CURSOR_PTR=.. -DLIST_CURSOR_IDX=..) still
+ * points at the node with that index */
+static const char* list_links(struct List* l) {
+  size_t n = 0; var prev = NULL; var item = l->head;
+  while (item) {
+    if (*List_Prev(l, item) isnt prev) return "LINKS:prev";
+    if (++n > l->nitems + 1) return "LINKS:long";
+    prev = item; item = *List_Next(l, item);
+  }
+  if (prev isnt l->tail) return "LINKS:tail";
+  if (n != l->nitems) return "LINKS:count";
+#ifdef LIST_CURSOR_PTR
+  if (l->LIST_CURSOR_PTR) {
+    item = l->head;
+    for (size_t i = 0; item and i < (size_t)l->LIST_CURSOR_IDX; i++) item = *List_Next(l, item);
+    if (item isnt l->LIST_CURSOR_PTR) return "CURSOR:stale";
+  }
+#endif
+  return "-";
+}
+
+static void wbox(var t) {
+  if (KIND is 'A') P(";%zu", ((struct Array*)t)->nslots);
+  else if (KIND is 'L') P(";%s", list_links(t));
+  else P(";-");
+}
 
 static void dump(var t) {
   size_t n = 0;
@@ -38,7 +91,7 @@ static void dump(var t) {
   size_t m = n < MAXV ? n : MAXV;
   for (size_t i = 0; i < m; i++) {
     gok[i] = 0;
-    try { g[i] = c_int(get(t, $I((int64_t)i))); gok[i] = 1; } catch (e) { g[i] = 0; }
+    try { g[i] = val(get(t, $I((int64_t)i))); gok[i] = 1; } catch (e) { g[i] = 0; }
     if (i) P(",");
     if (gok[i]) P("%" PRId64, g[i]); else P("!E");
   }
@@ -47,7 +100,7 @@ static void dump(var t) {
   static int64_t h[MAXV]; static char hok[MAXV];
   for (size_t i = 0; i < m; i++) {
     hok[i] = 0;
-    try { h[i] = c_int(get(t, $I(-(int64_t)(i + 1)))); hok[i] = 1; } catch (e) { h[i] = 0; }
+    try { h[i] = val(get(t, $I(-(int64_t)(i + 1)))); hok[i] = 1; } catch (e) { h[i] = 0; }
     if (hok[i] != gok[m - 1 - i] || h[i] != g[m - 1 - i]) same = 0;
   }
   P(";");
@@ -57,7 +110,7 @@ static void dump(var t) {
   try {
     foreach (x in t) {
       if (cnt >= m + 4 || cnt >= MAXV) { runaway = 1; break; }
-      it[cnt++] = c_int(x);
+      it[cnt++] = val(x);
     }
   } catch (e) { ierr = exn_name(e); }
   same = (!runaway && !ierr && cnt == m);
@@ -68,7 +121,7 @@ static void dump(var t) {
     var x = iter_last(t);
     while (x isnt Terminal) {
       if (bcnt >= m + 4 || bcnt >= MAXV) { brun = 1; break; }
-      bk[bcnt++] = c_int(x);
+      bk[bcnt++] = val(x);
       x = iter_prev(t, x);
     }
   } catch (e) { berr = exn_name(e); }
@@ -84,15 +137,70 @@ static void dump(var t) {
   else { P("BACKWARD:"); for (size_t i = 0; i < bcnt; i++) { if (i) P(","); P("%" PRId64, bk[i]); } }
   P(";");
   for (int p = 0; p < NPROBE; p++) {
-    try { P("%d", mem(t, $I(PROBES[p])) ? 1 : 0); } catch (e) { P("!"); }
+    try { P("%d", mem(t, elem(PROBES[p])) ? 1 : 0); } catch (e) { P("!"); }
   }
-  if (KIND is 'A') P(";%zu", ((struct Array*)t)->nslots); else P(";-");
+  wbox(t);
+}
+
+/* '^': gets at descending indices n-1..0, then -n..-1 (no sweep from index 0 upwards) */
+static void dump_desc(var t) {
+  size_t n = 0;
+  try { n = len(t); } catch (e) { P(";!%s", exn_name(e)); return; }
+  static int64_t g[MAXV]; static char gok[MAXV]; static int64_t h[MAXV]; static char hok[MAXV];
+  size_t m = n < MAXV ? n : MAXV;
+  for (size_t i = m; i-- > 0; ) {
+    gok[i] = 0;
+    try { g[i] = val(get(t, $I((int64_t)i))); gok[i] = 1; } catch (e) { g[i] = 0; }
+  }
+  int same = 1;
+  for (size_t j = m; j-- > 0; ) {           /* key -(j+1) */
+    hok[j] = 0;
+    try { h[j] = val(get(t, $I(-(int64_t)(j + 1)))); hok[j] = 1; } catch (e) { h[j] = 0; }
+    if (hok[j] != gok[m - 1 - j] || h[j] != g[m - 1 - j]) same = 0;
+  }
+  P(";%zu;^;", n);
+  for (size_t i = 0; i < m; i++) { if (i) P(","); if (gok[i]) P("%" PRId64, g[i]); else P("!E"); }
+  P(";");
+  if (same) P("="); else for (size_t i = 0; i < m; i++) { if (i) P(","); if (hok[i]) P("%" PRId64, h[i]); else P("!E"); }
+}
+
+/* '~': forward iteration and mem only (no indexed access at all) */
+static void dump_iter(var t) {
+  size_t n = 0;
+  try { n = len(t); } catch (e) { P(";!%s", exn_name(e)); return; }
+  P(";%zu;~;", n);
+  size_t cnt = 0; const char* ierr = NULL;
+  try {
+    foreach (x in t) {
+      if (cnt >= n + 4 || cnt >= MAXV) { P("%sRUNAWAY", cnt ? "," : ""); break; }
+      if (cnt) P(",");
+      P("%" PRId64, val(x)); cnt++;
+    }
+  } catch (e) { ierr = exn_name(e); }
+  if (ierr) P("!%s", ierr);
+  P(";");
+  for (int p = 0; p < NPROBE; p++) {
+    try { P("%d", mem(t, elem(PROBES[p])) ? 1 : 0); } catch (e) { P("!"); }
+  }
+}
+
+static void dump_none(var t) {
+  try { P(";%zu", len(t)); } catch (e) { P(";!%s", exn_name(e)); }
 }
 
 static void one_case(char* line) {
-  if (line[0] == 0 || line[1] != '|') { P("BADCASE"); return; }
-  KIND = line[0];
-  char* s = line + 2; char* tok;
+  char* bar = strchr(line, '|');
+  if (line[0] == 0 || bar == NULL) { P("BADCASE"); return; }
+  KIND = line[0]; ETYPE = NULL; ESIZE = 0; EXPLICIT = 0;
+  for (char* f = line + 1; f < bar; f++) {
+    if (*f == '*') EXPLICIT = 1;
+    else if (*f == 'e') {
+      ESIZE = (size_t)strtoul(f + 1, &f, 10); f--;
+      ETYPE = ESIZE == 1 ? E1 : ESIZE == 2 ? E2 : ESIZE == 4 ? E4 : ESIZE == 6 ? E6 : ESIZE == 12 ? E12 : ESIZE == 20 ? E20 : NULL;
+      if (ETYPE is NULL) { P("BADCASE"); return; }
+    } else { P("BADCASE"); return; }
+  }
+  char* s = bar + 1; char* tok;
   var volatile t = NULL;
   var stackitems[256];
 
@@ -129,6 +237,9 @@ static void one_case(char* line) {
       if (tok == NULL) break;
       if (init) continue;
     }
+    char how = EXPLICIT ? ' ' : '!';
+    size_t tl = strlen(tok);
+    if (EXPLICIT && tl > 1 && (tok[tl - 1] == '!' || tok[tl - 1] == '^' || tok[tl - 1] == '~')) { how = tok[tl - 1]; tok[tl - 1] = 0; }
     const char* res = "ok"; char rbuf[64];
     try {
       switch (tok[0]) {
@@ -138,9 +249,9 @@ static void one_case(char* line) {
         case 'd': pop_at(t, $I(num(tok + 1))); break;
         case 's': { char* c = strchr(tok, ','); *c = 0; set(t, $I(num(tok + 1)), elem(num(c + 1))); break; }
         case 'g': { var v = get(t, $I(num(tok + 1)));
-                    snprintf(rbuf, sizeof rbuf, "v%" PRId64, (int64_t)c_int(v)); res = rbuf; break; }
-        case 'm': res = mem(t, $I(num(tok + 1))) ? "true" : "false"; break;
-        case 'r': rem(t, $I(num(tok + 1))); break;
+                    snprintf(rbuf, sizeof rbuf, "v%" PRId64, (int64_t)val(v)); res = rbuf; break; }
+        case 'm': res = mem(t, elem(num(tok + 1))) ? "true" : "false"; break;
+        case 'r': rem(t, elem(num(tok + 1))); break;
         case 'c': concat(t, make(tok[1], tok + 3)); break;
         case 'a': append(t, elem(num(tok + 1))); break;
         case 'z': resize(t, (size_t)strtoull(tok + 1, NULL, 10)); break;
@@ -154,9 +265,11 @@ static void one_case(char* line) {
         default: res = "BADOP";
       }
     } catch (e) { res = exn_name(e); }
-    P(" | %s", res); dump(t);
+    P(" | %s", res);
+    if (how == '!') dump(t); else if (how == '^') dump_desc(t); else if (how == '~') dump_iter(t); else dump_none(t);
     fflush(OUT);
   }
+  if (EXPLICIT) { P(" | end"); dump(t); }
 }
 
 int main(int argc, char** argv) {
